@@ -349,7 +349,24 @@ def static_features(prog):
     """program-level facts read off the spec-published tree (used for compile-time rejections, which have no call)"""
     f = {"literal_unpack_length_mismatch": False, "literal_tuple_const_index_out_of_range": False,
          "literal_unpack_trailing_star_gets_nothing": False, "class_body_comprehension_with_closure_over_its_variable": False,
-         "genexpr_walrus_to_global_and_inner_global_decl": False, "subscript_of_variable_iterating_range": False}
+         "genexpr_walrus_to_global_and_inner_global_decl": False, "subscript_of_variable_iterating_range": False,
+         "sorted_of_conditional_expression": False, "conditional_of_str_literal_iteration_var_and_int_tuple_literal": False}
+    for n in walk(prog):
+        if n["t"] == "call" and n["a"][0]["t"] == "name" and n["a"][0]["s"] == "sorted" and len(n["a"]) == 2 and n["a"][1]["t"] == "cond":
+            f["sorted_of_conditional_expression"] = True
+        if n["t"] in ("comp", "for"):
+            it = n["a"][1]
+            var = n["p"][0] if n["t"] == "comp" else n["a"][0].get("s")
+            parts = [n["a"][0], n["a"][2]] if n["t"] == "comp" else [n["a"][2]]
+            if it["t"] == "str":
+                for part in parts:
+                    for x in walk(part):
+                        if x["t"] == "cond":
+                            br = [x["a"][1], x["a"][2]]
+                            isvar = [b["t"] == "name" and b["s"] == var for b in br]
+                            istup = [b["t"] == "tuple" and len(b["a"]) > 0 and all(c["t"] == "int" for c in b["a"]) for b in br]
+                            if (isvar[0] and istup[1]) or (isvar[1] and istup[0]):
+                                f["conditional_of_str_literal_iteration_var_and_int_tuple_literal"] = True
     for n in walk(prog):
         # a loop / comprehension variable that iterates over range(..) is subscripted
         if n["t"] == "comp" and n["a"][1]["t"] == "call" and n["a"][1]["a"][0]["t"] == "name" and n["a"][1]["a"][0]["s"] == "range":
